@@ -1,4 +1,5 @@
 let () =
   match Sys.argv with
   | [| _; "c16" |] -> Drv_c16.run stdin stdout
+  | [| _; "c08" |] -> Drv_c08.run stdin stdout
   | _ -> prerr_endline "usage: driver <model>  (script on stdin)"; exit 2
